@@ -231,9 +231,14 @@ def _condition_temps(fn: ast.AST) -> dict[str, ast.expr]:
         if isinstance(n, ast.Assign) and len(n.targets) == 1 and isinstance(n.targets[0], ast.Name) and not hasattr(n, "_xsa_jump"):
             v = n.value
             if isinstance(v, (ast.BoolOp, ast.Compare)) or (isinstance(v, ast.UnaryOp) and isinstance(v.op, ast.Not)) or (
-                    isinstance(v, ast.Call) and isinstance(v.func, ast.Name) and v.func.id == "bool" and len(v.args) == 1):
+                    isinstance(v, ast.Call) and isinstance(v.func, ast.Name) and v.func.id == "bool" and len(v.args) == 1) or (
+                    isinstance(v, ast.Call) and isinstance(v.func, ast.Name) and v.func.id in ("isinstance", "callable", "hasattr", "issubclass") and not v.keywords
+                    and not any(isinstance(x, ast.Call) for a in v.args for x in ast.walk(a))):
                 cands[n.targets[0].id] = v
     args = getattr(fn, "args", None)
+    if args is not None:
+        for a in [*args.posonlyargs, *args.args, *args.kwonlyargs, *([args.vararg] if args.vararg else []), *([args.kwarg] if args.kwarg else [])]:
+            stores[a.arg] = stores.get(a.arg, 0) + 1  # a parameter is bound on entry: one more assignment means it can change
     out = {}
     for name, v in cands.items():
         if stores.get(name, 0) != 1:
@@ -399,6 +404,13 @@ class Builder:
             self.loops.pop()
             for a, lab in outs:
                 g._edge(a, n.id, lab)
+            it = st.iter
+            endless = isinstance(it, ast.Call) and not it.keywords and (
+                (ast.unparse(it.func) in ("count", "itertools.count") and len(it.args) <= 2)
+                or (ast.unparse(it.func) in ("cycle", "itertools.cycle", "repeat", "itertools.repeat") and len(it.args) == 1))
+            if endless:
+                # itertools.count() / cycle(x) / repeat(x) never run out: the loop is left only by break / return / raise
+                return [(b, "break") for b in breaks]
             done = [(n.id, "done")]
             after = self._block(st.orelse, done) if st.orelse else done
             return after + [(b, "break") for b in breaks]
@@ -497,6 +509,12 @@ class Builder:
         if isinstance(st, ast.Raise):
             n = self._simple(st, ins)
             g._own(n, st.exc, st.cause)
+            self._raise_to(n.id)
+            return []
+        if isinstance(st, ast.Expr) and hasattr(st, "_xsa_exhausted"):
+            # the exhaustion marker of a `next(<generator expression>)` rewritten as a loop: raises StopIteration, never falls through
+            n = self._simple(st, ins)
+            g._own(n, st.value)
             self._raise_to(n.id)
             return []
         if isinstance(st, ast.Break):
